@@ -97,6 +97,8 @@ def _render(fmt, doc):
         imgs = {"i1": (_png(), "png")}
         if fmt == "docx+bsdt":
             return ooxml.docx(doc, imgs, {"block_sdt": True})
+        if fmt == "pptx+nooff":
+            return ooxml.pptx(doc, imgs, {"no_offsets": True})
         return getattr(ooxml, base)(doc, imgs)
     if base in ("odt", "odp", "odg", "odf", "ods"):
         from verif.gen import odf
@@ -228,7 +230,7 @@ def _clauses(fmt):
 
 
 SHEET_FORMATS = ("xlsx", "xlsx+inline", "ods", "xls", "csv")
-ADM_FORMATS = ("docx", "docx+bsdt", "pptx", "odt", "odp", "odg", "odf", "html", "mhtml", "mhtml+b64", "epub", "rtf", "pdf", "txt", "md", "json",
+ADM_FORMATS = ("docx", "docx+bsdt", "pptx", "pptx+nooff", "odt", "odp", "odg", "odf", "html", "mhtml", "mhtml+b64", "epub", "rtf", "pdf", "txt", "md", "json",
                "csv", "eml", "eml+html", "mbox", "ppt", "ppt+textbox")
 THOROUGH_ONLY = ("mhtml+b64", "xlsx+inline")
 FORMATS = ADM_FORMATS + tuple(f for f in SHEET_FORMATS if f != "csv") + ("csv+sheet",)
@@ -663,6 +665,8 @@ def cases_for(fmt, tier, seed, k=0, n=1):
         doc = build_sheets(sk, seed) if kind == "sheet" else build_doc(sk, seed)
         if fmt == "docx+bsdt" and not _has_block_sdt(doc):
             continue          # the variant differs from docx only where a top-level paragraph is one content control
+        if fmt == "pptx+nooff" and not all(len(u[1]) >= 2 and all(b[0] == "p" for b in u[1]) for u in doc[2]):
+            continue          # shapes without a position: only text boxes share one default sort key, so source order must survive
         if fmt == "ppt+textbox" and not any(b[0] == "p" for u in doc[2] for b in u[1]):
             continue          # the variant differs from ppt only where there is a paragraph
         yield doc
